@@ -148,7 +148,18 @@ def f27(spec, kind, message):
     tb, fb = spec["b2"]
     if tb <= 0 or fb <= 0:
         return False
-    return max((b[2] - b[0]) / tb, (b[3] - b[1]) / fb) < 0.2
+    if max((b[2] - b[0]) / tb, (b[3] - b[1]) / fb) < 0.2:
+        return True
+    # the same mechanism on a larger geometry: two consecutive vertices closer than 2 % of the larger buffer (in the space the code buffers
+    # in) - the one GEOS drops at the larger buffer and keeps at the smaller one (its tolerance is 1 % of the buffer distance)
+    import math as _m
+
+    for pts, _closed in _chains(g["type"], g["coordinates"]):
+        for p, q in zip(pts, pts[1:]):
+            d = _m.hypot((q[0] - p[0]) / tb, (q[1] - p[1]) / fb)
+            if 0 < d < 0.02:
+                return True
+    return False
 
 
 KNOWN = {"F16-scaled-coordinates-too-large": f16, "F18-mitre-bevel": f18, "F19-non-simple-line": f19, "F27-input-simplified-at-large-buffers": f27}
